@@ -171,14 +171,15 @@ def factorial (t : IType) (n : Int) : Option Int := factLoop t n.toNat 0 1
 
 /-- loop of the repaired `binomial`:
     `for (T i = 1; i <= k; ++i) { const T m = n-k+i; const T g = std::gcd(m, i); bin = (bin / (i/g)) * (m/g); }`
-    arguments: remaining iterations, `nk = n-k`, `i`, `bin` -/
+    (the `++i` is checked too); arguments: remaining iterations, `nk = n-k`, `i`, `bin` -/
 def binomLoop (t : IType) (nk : Int) : Nat → Int → Int → Option Int
   | 0, _, bin => some bin
   | it + 1, i, bin =>
     (chk t (nk + i)).bind fun m =>
     let g : Int := (Int.gcd m i : Int)
     (chk t ((bin / (i / g)) * (m / g))).bind fun b =>
-    binomLoop t nk it (i + 1) b
+    (chk t (i + 1)).bind fun i1 =>
+    binomLoop t nk it i1 b
 
 /-- the part of `binomial` after the symmetry test (`2k ≤ n`) -/
 def binomCore (t : IType) (n k : Int) : Option Int :=
